@@ -144,12 +144,13 @@ class minimize(object):
             nfev: Number of func evaluations.
         """
         solution = opt.minimize(self.func, self.x0, jac = self.gradfunc, method = self.method, **self.kwargs)
+        # derivative-free methods (Nelder-Mead, Powell, COBYLA) do not report a gradient
         info = {"success": solution['success'],
                 "message": solution['message'],
                 "func": solution['fun'],
-                "grad": solution['jac'],
-                "nit": solution['nit'], 
-                "nfev": solution['nfev']}
+                "grad": solution.get('jac', None),
+                "nit": solution.get('nit', None),
+                "nfev": solution.get('nfev', None)}
         if isinstance(self.x0,CUQIarray):
             sol = CUQIarray(solution['x'],geometry=self.x0.geometry)
         else:
